@@ -88,6 +88,14 @@ pub struct Case {
     /// held other values: the buffer is then overwritten in place with `data`
     #[serde(default)]
     pub pre_same: usize,
+    /// > 0: the earlier same-buffer calls read only the first `pre_prefix` elements (the data "grew"
+    /// in place since)
+    #[serde(default)]
+    pub pre_prefix: usize,
+    /// non-empty [lo, hi]: another client draws once from DiscreteUniform(lo, hi) on this thread
+    /// immediately before the main call
+    #[serde(default)]
+    pub pre_du: Vec<i64>,
 }
 
 /// structure-only check of one call on plain distinct data (used for the earlier calls of a run)
@@ -314,6 +322,8 @@ impl Prop for C19 {
                 repeat: 12,
                 pre: vec![],
                 pre_same: (run % 3 == 2) as usize,
+                pre_prefix: if run % 6 == 2 { n / 2 } else { 0 },
+                pre_du: vec![],
             };
         }
         let _ = tier;
@@ -331,6 +341,8 @@ impl Prop for C19 {
                 repeat: 40,
                 pre: vec![],
                 pre_same: 0,
+                pre_prefix: 0,
+                pre_du: vec![],
             };
         }
         let func = *r.pick(&[
@@ -403,7 +415,25 @@ impl Prop for C19 {
             }
         }
         let pre_same = if r.chance(0.25) { 1 + r.below(2) as usize } else { 0 };
-        Case { func, data: fbs(&data), mode: mode.into(), n_boot, seeding, script, repeat, pre, pre_same }
+        let pre_prefix = if pre_same > 0 && n >= 2 && r.chance(0.5) { 1 + r.below(n as u64 - 1) as usize } else { 0 };
+        // a rejected request (empty data) somewhere among the earlier calls
+        if r.chance(0.1) {
+            let f = *r.pick(&[Func::Bootstrap, Func::Jackknife, Func::Shuffle, Func::ShuffleTwo, Func::ShuffleTwo]);
+            let at = r.below(pre.len() as u64 + 1) as usize;
+            pre.insert(at, (f, 0));
+            if r.chance(0.5) {
+                pre.push((*r.pick(&[Func::Shuffle, Func::Bootstrap]), 1 + r.below(12) as usize));
+            }
+        }
+        // another client of the generator draws an index-like value just before the call
+        let pre_du = if r.chance(0.15) {
+            let hi = if r.chance(0.6) { n as i64 - 1 } else { r.below(2 * n as u64 + 3) as i64 };
+            let lo = if hi > 0 { 1 + r.below(hi as u64) as i64 } else { hi };
+            vec![lo.min(hi), hi]
+        } else {
+            vec![]
+        };
+        Case { func, data: fbs(&data), mode: mode.into(), n_boot, seeding, script, repeat, pre, pre_same, pre_prefix, pre_du }
     }
 
     fn exec(case: &Case, st: &mut Stats) -> Option<Viol> {
@@ -415,9 +445,10 @@ impl Prop for C19 {
         if case.pre_same > 0 {
             case.seeding.apply();
             data.extend((0..n).map(|i| i as f64 + 0.25));
+            let upto = if case.pre_prefix > 0 && case.pre_prefix < n { case.pre_prefix } else { n };
             for _ in 0..case.pre_same {
                 st.inc("earlier_calls_on_same_buffer");
-                if let Some((check, class, detail)) = structural_on(case.func, &data) {
+                if let Some((check, class, detail)) = structural_on(case.func, &data[..upto]) {
                     same_verdict = Some(Viol::new(check, class, detail).k("func", format!("{:?}", case.func)).k("len", "earlier_call"));
                     break;
                 }
@@ -437,10 +468,31 @@ impl Prop for C19 {
                 break;
             }
             st.inc("earlier_calls_on_thread");
+            if *pl == 0 {
+                // a request on empty data: whatever it does (it is outside "every length from 1
+                // upward"), the unwind is caught and the thread carries on
+                st.inc("earlier_rejected_request");
+                alea::sim::set_budget(10_000);
+                let _ = match pf {
+                    Func::Bootstrap => catch(|| bootstrap(&[], 2).len()),
+                    Func::Jackknife => catch(|| jackknife(&[]).len()),
+                    Func::Shuffle => catch(|| shuffle(&[]).len()),
+                    Func::ShuffleTwo => catch(|| shuffle_two(&[], &[]).0.len()),
+                };
+                alea::sim::clear_budget();
+                continue;
+            }
             if let Some((check, class, detail)) = structural(*pf, (*pl).max(1)) {
                 pre_verdict = Some(Viol::new(check, class, detail).k("func", format!("{:?}", pf)).k("len", "earlier_call"));
                 break;
             }
+        }
+        if case.pre_du.len() == 2 && case.pre_du[0] <= case.pre_du[1] {
+            st.inc("other_client_draws_first");
+            let (lo, hi) = (case.pre_du[0], case.pre_du[1]);
+            alea::sim::set_budget(10_000);
+            let _ = catch(|| compute::distributions::Distribution::sample(&compute::distributions::DiscreteUniform::new(lo, hi)));
+            alea::sim::clear_budget();
         }
         let base = alea::sim::draws();
         let script: Vec<(u64, u64)> = case.script.iter().map(|f| (base + f.at, f.raw.0)).collect();
@@ -806,6 +858,17 @@ impl Prop for C19 {
         if case.pre_same > 0 {
             let mut c = case.clone();
             c.pre_same = 0;
+            c.pre_prefix = 0;
+            out.push(c);
+        }
+        if case.pre_prefix > 0 {
+            let mut c = case.clone();
+            c.pre_prefix = 0;
+            out.push(c);
+        }
+        if !case.pre_du.is_empty() {
+            let mut c = case.clone();
+            c.pre_du.clear();
             out.push(c);
         }
         for rp in [1usize, case.repeat / 2] {
@@ -862,7 +925,7 @@ impl Prop for C19 {
             "len.len2-8", "len.len9+", "mode.distinct", "mode.repeated", "mode.special", "mode.special_distinct",
             "seeding.seed_clock", "seeding.seed_small", "seeding.seed_set", "fault.rng_zero",
             "fault.rng_max", "fault.rng_tiny", "fault.rng_half", "fault.rng_streak",
-            "stat.dkw_checked", "stat.coverage_checked", "stat.frequency_checked", "stat.joint_checked", "stat.chi_square_checked", "stat.order_checked", "earlier_calls_on_thread", "earlier_calls_on_same_buffer", "fault.rng_pair",
+            "stat.dkw_checked", "stat.coverage_checked", "stat.frequency_checked", "stat.joint_checked", "stat.chi_square_checked", "stat.order_checked", "earlier_calls_on_thread", "earlier_calls_on_same_buffer", "earlier_rejected_request", "other_client_draws_first", "fault.rng_pair",
         ]
         .iter()
         .map(|s| s.to_string())
